@@ -354,6 +354,7 @@ func Worker(o core.WorkerOpts) *core.Report {
 		} else {
 			c = genHostileCase(r)
 		}
+		l.Current(caseSeed, c)
 		res := Execute(c, false)
 		l.NoteTrace(res.Trace.Hash())
 		if !res.InDomain {
